@@ -337,6 +337,10 @@ func (r Wrapper) getClientMetadataFromRequest(ctx context.Context, params oauthP
 		if err != nil {
 			return nil, &oauth.OAuth2Error{Code: oauth.InvalidRequest, Description: "invalid client_metadata", InternalError: err}
 		}
+		if metadata == nil {
+			// JSON null
+			return nil, &oauth.OAuth2Error{Code: oauth.InvalidRequest, Description: "invalid client_metadata"}
+		}
 	} else {
 		metadata, err = r.auth.IAMClient().ClientMetadata(ctx, params.get(oauth.ClientMetadataURIParam))
 		if err != nil {
